@@ -11,7 +11,12 @@ from . import core
 
 REGISTRY = {
     "C19": "treemerge",
+    "C01": "objectstore",
     "C04": "objectstore",
+    "C06": "objectstore",
+    "C07": "objectstore",
+    "C11": "objectstore",
+    "C12": "objectstore",
 }
 
 
